@@ -1,5 +1,6 @@
 """C14 — tags select exactly the tagged arguments and survive every transformation."""
 
+import collections
 import copy
 import inspect
 import pickle
@@ -61,6 +62,11 @@ def strategy_(draw, tier):
     pname = 'z0' if name in ('things:g3', 'things:annotated_po') else ('e' if name == 'things:h1' else 'child')
     root['kw'][pname] = i + 1
     recipe['root'] = i + 2
+  if draw(st.sampled_from(range(4))) == 0:
+    # two unrelated tag classes with the same __name__
+    for nd in recipe['nodes']:
+      if nd['k'] == 'B' and nd.get('tags'):
+        nd['tags'] = [[k, draw(st.sampled_from(['SameA', 'SameB', t]))] for k, t in nd['tags']]
   ops = []
   for _ in range(draw(st.integers(0, 8))):
     ops.append({'op': draw(st.sampled_from(['add', 'add', 'remove', 'set', 'clear', 'get'])),
@@ -75,6 +81,10 @@ def strategy_(draw, tier):
 
 def strategy(tier):
   return strategy_(tier)
+
+
+_ANNOTATED = {'things:annotated_fn': {'x': 'TagA', 'y': 'TagC'},
+              'things:annotated_po': {0: 'TagB', 'a': 'TagX', 'k': 'TagA'}}
 
 
 def reachable_buildables(root):
@@ -131,6 +141,43 @@ def check(case):
     return out
   T = vtags.ALL[case['T']]
   bs = reachable_buildables(root)
+  # (0) tags right after construction: Annotated tags, tags of TaggedValues passed to the
+  #     constructor and add_tag calls accumulate (expected sets computed from the recipe alone)
+  nodes = case['recipe']['nodes']
+  for i, nd in enumerate(nodes):
+    if nd['k'] != 'B' or nd.get('bt') == 'DictConfig' or nd.get('edits'):
+      continue
+    info = recipes.ParamInfo(recipes.resolve_fn(nd['fn']))
+    def norm(k, info=info):
+      if isinstance(k, str) and k in info.posonly:
+        return info.posonly.index(k)
+      if isinstance(k, int) and not isinstance(k, bool) and 0 <= k < info.npos:
+        return info.key_of(k)      # an index of a positional-or-keyword parameter means its name
+      return k
+
+    def tv_tags(r):
+      ts = set()
+      while isinstance(r, int) and nodes[r]['k'] == 'TV':
+        ts.update(vtags.ALL[t] for t in nodes[r]['tags'])
+        r = nodes[r].get('value')   # a TaggedValue whose value is a TaggedValue passes its tags on
+      return ts
+
+    exp = collections.defaultdict(set)
+    for k, t in _ANNOTATED.get(nd['fn'].get('name'), {}).items():
+      exp[k].add(vtags.ALL[t])
+    for j, r in enumerate(nd.get('pos', [])):
+      if isinstance(r, int) and nodes[r]['k'] == 'TV':
+        exp[info.key_of(j) if j < info.npos else j].update(tv_tags(r))
+    for name, r in nd.get('kw', {}).items():
+      if isinstance(r, int) and nodes[r]['k'] == 'TV':
+        exp[name].update(tv_tags(r))
+    for k, t in nd.get('tags', []):
+      exp[norm(k)].add(vtags.ALL[t])
+    have = {k: set(v) for k, v in objs[i].__argument_tags__.items() if v}
+    if have != {k: v for k, v in exp.items() if v}:
+      out.add('tags-after-construction-wrong', 'mismatch', '', nd['fn'].get('name', '?'),
+              f'node {i}: have {have} expected {dict(exp)}'[:600])
+      return out
   for b in bs:
     for k, ts in b.__argument_tags__.items():
       if ts and isinstance(k, int) and k >= len(b[:]):
@@ -211,6 +258,24 @@ def check(case):
       if C.canon(stripped) != base:
         out.add('tags-lost-through-diff', 'mismatch', '', feat, str(d)[:600])
         return out
+      # second pair: every NsA.Same is NsB.Same in old and vice versa (same __name__, distinct tags)
+      swap = {vtags.ALL['SameA']: vtags.ALL['SameB'], vtags.ALL['SameB']: vtags.ALL['SameA']}
+      swapped = copy.deepcopy(root)
+      changed = False
+      for b in reachable_buildables(swapped):
+        for k, ts in b.__argument_tags__.items():
+          new_ts = {swap.get(t, t) for t in ts}
+          if new_ts != ts:
+            changed = True
+            ts.clear()
+            ts.update(new_ts)
+      if changed:
+        out.cls('same_named_tags')
+        d = diffing.build_diff(swapped, root)
+        diffing.apply_diff(d, swapped)
+        if C.canon(swapped) != base:
+          out.add('tags-lost-through-diff', 'mismatch', '', feat + ':same-named-tags', str(d)[:600])
+          return out
     except Exception as e:  # pylint: disable=broad-except
       out.add('diff-of-tags-raises', exc_kind(e), fiddle_frame(e), feat, repr(e)[:300])
       return out
